@@ -6,7 +6,7 @@
    is_von_name = the local function of Person._parse_string;  jr_part, first_part, token_case,
    spec_is_von: Spec/Names.v. *)
 From Pybtex Require Import Base.Prelude Base.PyChar Base.PyStr Model.BibtexStr Model.Names Spec.Names
-  Proofs.NamesSplit Proofs.Names Proofs.NamesCase.
+  Proofs.NamesSplit Proofs.Names Proofs.NamesCase Proofs.NamesAtomic.
 
 (* parsing never raises a foreign exception and never diverges, for EVERY string and every
    explicit part argument (the only error left is BibTeXError 'too many nested braces') *)
@@ -78,6 +78,20 @@ Theorem chars_preserved : forall s parts p rep,
 Proof. exact chars_preserved_pf. Qed.
 Print Assumptions chars_preserved.
 
+(* braced groups are never split: if every opened brace of the string is closed again (Spec/Names.v
+   closed), the same holds of every token and of every comma part split_tex_string produces ... *)
+Theorem braced_groups_atomic : forall s, closed s ->
+  (forall ts, split_tex_space s = Ok ts -> Forall closed ts) /\
+  (forall parts, split_tex_comma s = Ok parts -> Forall closed parts).
+Proof. exact braced_groups_atomic_pf. Qed.
+Print Assumptions braced_groups_atomic.
+
+(* ... and of every name part of the parsed person *)
+Theorem person_tokens_closed : forall s p rep, closed s -> person_of_string s = Ok (p, rep) ->
+  Forall closed (p_first p ++ p_middle p ++ p_prelast p ++ p_last p ++ p_lineage p).
+Proof. exact person_tokens_closed_pf. Qed.
+Print Assumptions person_tokens_closed.
+
 (* non-vacuity *)
 Example ex_form0 :
   split_tex_comma (strip (s2l "Jean de la Fontaine du Bois Joli")) = Ok [s2l "Jean de la Fontaine du Bois Joli"] /\
@@ -116,4 +130,8 @@ Proof. vm_compute. auto. Qed.
 Example ex_case_braced_then_lower : no_stray_backslash (s2l "{A}b") 0 = true /\ is_von_name (s2l "{A}b") = Ok true.
 Proof. vm_compute. auto. Qed.
 Example ex_case_refuted : no_stray_backslash (s2l "{a\b}c") 0 = false.
+Proof. vm_compute. auto. Qed.
+Example ex_atomic : closed (s2l "{von der} Last, {Jr, {Sr}}, A {B C}") /\
+  person_of_string (s2l "{von der} Last, {Jr, {Sr}}, A {B C}") =
+    Ok (mkPerson [s2l "A"] [s2l "{B C}"] [] [s2l "{von der}"; s2l "Last"] [s2l "{Jr, {Sr}}"], false).
 Proof. vm_compute. auto. Qed.
